@@ -94,6 +94,10 @@ PerfectSpec(fn) ==
     [] fn = "segment.vmeasure" -> Rep("is1", 3)
     [] fn = "segment.evaluate" -> Rep("is1", 6) \o Rep("is0", 2) \o Rep("is1", 5) \o <<"any">> \o Rep("is1", 8)
     [] fn = "chord.evaluate" -> Rep("is1", 15)
+    \* "nothing to compare": 0 by documented convention (the segmentation scores do not depend on the vocabulary)
+    [] fn = "chord.evaluate[reference all X]" -> Rep("is0", 12) \o Rep("is1", 3)
+    [] fn = "chord.evaluate[reference outside maj/min/7]" -> Rep("is1", 8) \o Rep("is0", 4) \o Rep("is1", 3)
+    [] fn = "segment.nce[one label]" -> Rep("is0", 3)
     [] fn = "melody.evaluate" -> <<"is1", "is0", "is1", "is1", "is1">>
     [] fn = "melody.evaluate[soft reward]" -> <<"any", "any", "is1", "is1", "any">>   \* a soft reference reward: the voicing measures are means of weights, only the pitch accuracies have the copy as their optimum
     [] fn = "multipitch.metrics" -> <<"is1", "is1", "is1", "is0", "is0", "is0", "is0", "is1", "is1", "is1", "is0", "is0", "is0", "is0">>
